@@ -115,24 +115,63 @@ Proof.
 Qed.
 
 (* ----- duplicate elimination ----- *)
+Lemma set_code_names nm c seen : map fst (set_code nm c seen) = map fst seen.
+Proof. unfold set_code. rewrite map_map. apply map_ext. intros [n0 c0]. cbn [fst]. destruct (bytes_eqb n0 nm); reflexivity. Qed.
+
 Lemma dedupe_names : forall ts seen out, dedupe_terms seen ts = Some out ->
-  NoDup (map fst seen) -> NoDup (map fst out) /\ (exists more, out = seen ++ more) /\
+  NoDup (map fst seen) -> NoDup (map fst out) /\ (exists more, map fst out = map fst seen ++ more) /\
   (forall nm, In nm (map fst out) <-> In nm (map fst seen) \/ In nm (map fst ts)).
 Proof.
   induction ts as [|[nm c] ts IH]; intros seen out H ND; cbn [dedupe_terms] in H.
   - injection H as <-. split; [exact ND|]. split; [exists []; rewrite app_nil_r; reflexivity|]. intros x. simpl. tauto.
   - destruct (find (fun p => bytes_eqb (fst p) nm) seen) as [[n0 c0]|] eqn:F.
     + apply find_some in F. destruct F as [Fin Feq]. cbn [fst] in Feq. apply bytes_eqb_spec in Feq. subst n0.
+      assert (Hin : In nm (map fst seen)) by (apply in_map_iff; exists (nm, c0); auto).
       destruct (negb (c =? -1) && negb (c0 =? -1) && negb (c =? c0))%bool; [discriminate|].
-      destruct (IH seen out H ND) as (A & B & C). split; [exact A|]. split; [exact B|].
-      intros x. rewrite C. cbn [map fst]. split; [intros [X|X]; auto; right; right; exact X|].
-      intros [X|[<-|X]]; auto. left. apply in_map_iff. exists (nm, c0). auto.
+      destruct (c0 =? -1).
+      * destruct (IH (set_code nm c seen) out H) as (A & (more & B) & C); [rewrite set_code_names; exact ND|].
+        rewrite set_code_names in B, C. split; [exact A|]. split; [exists more; exact B|].
+        intros x. rewrite C. cbn [map fst]. split; [intros [X|X]; auto; right; right; exact X|].
+        intros [X|[<-|X]]; auto.
+      * destruct (IH seen out H ND) as (A & B & C). split; [exact A|]. split; [exact B|].
+        intros x. rewrite C. cbn [map fst]. split; [intros [X|X]; auto; right; right; exact X|].
+        intros [X|[<-|X]]; auto.
     + assert (Hn : ~ In nm (map fst seen)).
       { intros Hin. apply in_map_iff in Hin. destruct Hin as ([n1 c1] & E1 & Hin). cbn [fst] in E1. subst n1.
         pose proof (find_none _ _ F (nm, c1) Hin) as X. cbn [fst] in X.
         assert (Y : bytes_eqb nm nm = true) by (apply bytes_eqb_spec; reflexivity). congruence. }
       destruct (IH (seen ++ [(nm, c)]) out H) as (A & (more & B) & C).
       { rewrite map_app. cbn [map fst]. apply NoDup_snoc'; assumption. }
-      split; [exact A|]. split; [exists ((nm, c) :: more); rewrite B, <- app_assoc; reflexivity|].
+      split; [exact A|]. split; [exists (nm :: more); rewrite B, map_app, <- app_assoc; reflexivity|].
       intros x. rewrite C, map_app, in_app_iff. cbn [map fst In]. tauto.
+Qed.
+
+(* a terminal described with an explicit code somewhere keeps that code: the entry of a name never loses an explicit code *)
+Lemma dedupe_keeps_explicit : forall ts seen out nm c, dedupe_terms seen ts = Some out ->
+  In (nm, c) seen -> c <> (-1) -> NoDup (map fst seen) -> In (nm, c) out.
+Proof.
+  induction ts as [|[n1 c1] ts IH]; intros seen out nm c H Hin Hc ND; cbn [dedupe_terms] in H.
+  - injection H as <-. exact Hin.
+  - destruct (find (fun p => bytes_eqb (fst p) n1) seen) as [[n0 c0]|] eqn:F.
+    + destruct (negb (c1 =? -1) && negb (c0 =? -1) && negb (c1 =? c0))%bool; [discriminate|].
+      destruct (c0 =? -1) eqn:E0.
+      * apply (IH _ _ _ _ H); auto; [|rewrite set_code_names; exact ND].
+        apply find_some in F. destruct F as [Fin Feq]. cbn [fst] in Feq. apply bytes_eqb_spec in Feq. subst n0.
+        apply Z.eqb_eq in E0. subst c0. unfold set_code. apply in_map_iff. exists (nm, c). split; [|exact Hin]. cbn [fst].
+        destruct (bytes_eqb nm n1) eqn:B; [|reflexivity]. apply bytes_eqb_spec in B. subst n1. exfalso.
+        (* nm is in seen with c and with -1: contradiction with NoDup names *)
+        assert (X : forall l, NoDup (map fst l) -> In (nm, c) l -> In (nm, (-1)%Z) l -> c = (-1)%Z).
+        { clear. induction l as [|[a b] l IHl]; intros ND H1 H2; [destruct H1|]. cbn [map fst] in ND. inversion ND as [|? ? Hn ND']; subst.
+          destruct H1 as [H1|H1], H2 as [H2|H2].
+          - congruence.
+          - injection H1 as -> ->. exfalso. apply Hn. apply in_map_iff. exists (nm, (-1)%Z). auto.
+          - injection H2 as -> ->. exfalso. apply Hn. apply in_map_iff. exists (nm, c). auto.
+          - apply IHl; auto. }
+        apply Hc. apply (X seen ND Hin Fin).
+      * apply (IH _ _ _ _ H); auto.
+    + apply (IH _ _ _ _ H); auto; [apply in_or_app; left; exact Hin|].
+      rewrite map_app. cbn [map fst]. apply NoDup_snoc'; [exact ND|].
+      intros Hin'. apply in_map_iff in Hin'. destruct Hin' as ([n2 c2] & E2 & Hin2). cbn [fst] in E2. subst n2.
+      pose proof (find_none _ _ F (n1, c2) Hin2) as X. cbn [fst] in X.
+      assert (Y : bytes_eqb n1 n1 = true) by (apply bytes_eqb_spec; reflexivity). congruence.
 Qed.
